@@ -372,9 +372,62 @@ func init() {
 					}
 					loadOneFile(c, src)
 				}})
+			// several goroutines lex and parse at once, every input with words never seen before in the process
+			secs = append(secs, core.Section{Name: "concurrent-parsing", N: 16,
+				Run: func(c *core.Ctx, i int) {
+					c.Input(map[string]any{"goroutines": 8, "inputs_each": 250, "round": i})
+					c.Nontrivial(fmt.Sprint("burst", i, c.Seed))
+					concurrentBurst(c, 8, 250, func(g, n int) (string, map[string]any, string) {
+						id := fmt.Sprintf("%d_%d_%d_%d", c.Seed, i, g, n)
+						src := "mail" + id + "@host" + id + ".example @w" + id + " \\@if @e" + id + "{{ \"s" + id + "\" }}{{-- c" + id + " --}}@if(true)t" + id + "@end"
+						return src, nil, "mail" + id + "@host" + id + ".example @w" + id + " @if @e" + id + "s" + id + "t" + id
+					})
+				}})
+			// files that refer to each other in a circle (components, layouts, mixed), also files no page
+			// uses: loading returns, every page renders or fails
+			secs = append(secs, core.Section{Name: "reference-cycles", Exhaustive: true, N: len(cycleTrees),
+				Run: func(c *core.Ctx, i int) {
+					files := cycleTrees[i]
+					tpl, err := loadTree(c, "c08cycle", files, ".tw")
+					defer os.RemoveAll("c08cycle")
+					c.Nontrivial(fmt.Sprint(files))
+					c.Sample(map[string]any{"files": describeFiles(files), "load_error": fmt.Sprint(err)})
+					if tpl == nil || err != nil {
+						if err != nil && !strings.Contains(err.Error(), "Textwire ERROR") {
+							c.Violation("load-error-shape", "load error is not a Textwire error: "+err.Error(), map[string]any{"files": describeFiles(files)})
+						}
+						return
+					}
+					for _, name := range tpl.VerifNames() {
+						got, _ := renderPage(c, tpl, name, nil)
+						if !got.Panicked && got.Err == nil {
+							c.Count("cyclic_pages_rendered", 1)
+						}
+					}
+				}})
 			return secs
 		},
 	})
+}
+
+// trees whose files refer to each other in a circle
+var cycleTrees = []map[string]string{
+	{"page.tw": `a@component("page")b`},
+	{"page.tw": `a@component("page")@slot x@end@end b`},
+	{"page.tw": `a@component("~x")b`, "components/x.tw": `X@component("~x")`},
+	{"page.tw": `a@component("~x")b`, "components/x.tw": `X@component("~y")`, "components/y.tw": `Y@component("~x")`},
+	{"page.tw": `a@component("~x")b`, "components/x.tw": `X@component("~y")`, "components/y.tw": `Y@component("~z")`, "components/z.tw": `Z@component("~x")@slot@end@end`},
+	{"page.tw": "plain", "components/x.tw": `X@component("~y")`, "components/y.tw": `Y@component("~x")`},
+	{"page.tw": "plain", "unused/self.tw": `@if(true)@component("unused/self")@end`},
+	{"page.tw": `@component("~x")`, "components/x.tw": `X@component("page")`},
+	{"page.tw": `@use("page")`},
+	{"page.tw": `@use("page")@insert("a", 1)`},
+	{"page.tw": `@use("~main")`, "layouts/main.tw": `@use("~main")@reserve("a")`},
+	{"page.tw": `@use("~a")@insert("a", 1)`, "layouts/a.tw": `@use("~b")@reserve("a")`, "layouts/b.tw": `@use("~a")@reserve("a")`},
+	{"page.tw": `@use("~a")`, "layouts/a.tw": `<@reserve("a")>@component("~x")`, "components/x.tw": `@use("~a")X`},
+	{"page.tw": `@use("~a")@insert("a")@component("~x")@end`, "layouts/a.tw": `<@reserve("a")>`, "components/x.tw": `X@component("~x")@each(v in [1])@component("~x")@end`},
+	{"page.tw": `@component("~x", {a: 1})`, "components/x.tw": `@if(a)@component("~x", {a: 0})@end`},
+	{"a.tw": `@component("b")`, "b.tw": `@component("c")`, "c.tw": `@component("a")`},
 }
 
 // loadOneFile writes src as the only file of a template directory and loads it
